@@ -1404,3 +1404,47 @@ def fold_substituted_tests(fn: ast.AST, is_method) -> bool:
     if changed:
         ast.fix_missing_locations(fn)
     return changed
+
+
+# ---------------------------------------------------------------------------
+def hoist_common_tails(fn: ast.AST) -> bool:
+    """`if T: A; X  else: B; X`  ->  `if T: A  else: B` ; `X`  (the same last statement in both arms runs after the `if` either way).
+    A helper with two `return`s that compute part of the result identically leaves such arms behind when it is expanded."""
+    changed = False
+
+    def same(a, b):
+        return ast.dump(a, annotate_fields=False, include_attributes=False) == ast.dump(b, annotate_fields=False, include_attributes=False)
+
+    def rewrite(blk):
+        nonlocal changed
+        i = 0
+        while i < len(blk):
+            s = blk[i]
+            for fld in ("body", "orelse", "finalbody"):
+                b = getattr(s, fld, None)
+                if isinstance(b, list) and b and isinstance(b[0], ast.stmt) and not isinstance(s, (ast.FunctionDef, ast.AsyncFunctionDef, ast.ClassDef)):
+                    rewrite(b)
+            if isinstance(s, ast.Try):
+                for h in s.handlers:
+                    rewrite(h.body)
+            if isinstance(s, ast.Match):
+                for c in s.cases:
+                    rewrite(c.body)
+            if isinstance(s, ast.If) and s.body and s.orelse:
+                tail = []
+                while s.body and s.orelse and same(s.body[-1], s.orelse[-1]) and isinstance(s.body[-1], (ast.Assign, ast.AugAssign, ast.AnnAssign, ast.Expr)) \
+                        and not any(isinstance(x, (ast.Yield, ast.YieldFrom, ast.NamedExpr)) for x in ast.walk(s.body[-1])):
+                    # the statement must not feed the test of an elif that is itself the else arm (it is not: it comes last)
+                    tail.insert(0, s.body.pop())
+                    s.orelse.pop()
+                if tail:
+                    if not s.body:
+                        s.body.append(ast.copy_location(ast.Pass(), s))
+                    blk[i + 1 : i + 1] = tail
+                    changed = True
+            i += 1
+
+    rewrite(fn.body)
+    if changed:
+        ast.fix_missing_locations(fn)
+    return changed
